@@ -91,6 +91,7 @@ func c13(c *core.Check) {
 	}
 	c13keyKinds(c)
 	headTailPartition(c)
+	c14trie(c)
 }
 
 // c13keyKinds (M5): the generator and the mask library must classify map key types identically. The templates pick the
